@@ -33,6 +33,9 @@ import (
 //	                       the retry ended (delivery or cancel instant)
 //	bystander-delayed      a third session's round trip during the retry had latency > 0
 //	dealer-tables-not-empty calls / invocations / invocationByCall not empty afterwards
+//	interrupt-after-answer the callee got an INTERRUPT although it had answered and
+//	                       the model delivers its RESULT (e.g. the call's timeout
+//	                       fired during the retry)
 //
 // When the cancellation is predicted the caller's queue is still full at the
 // deadline, so the ERROR wamp.error.canceled is dropped like every other
@@ -56,6 +59,10 @@ type YieldResumeSpec struct {
 	Q        int    `json:"q"`
 	Kind     string `json:"kind"` // final | progressive-final | stalled-progressive-final
 	ResumeUs int64  `json:"resume_after_us"`
+	// TimeoutMs > 0: the CALL carries a router-handled timeout (the callee did
+	// not ask for forward_timeout).  The callee's final YIELD stops that timer
+	// even when the RESULT has to be retried.
+	TimeoutMs int `json:"call_timeout_ms,omitempty"`
 }
 
 // yrRow is the scenario's line in the summary.
@@ -68,6 +75,7 @@ type yrRow struct {
 	ObservedUs  int64  `json:"observed_us"`
 	Observed    string `json:"observed"` // delivered | cancelled | lost | not-run
 	ReleasedUs  int64  `json:"callee_released_us"`
+	TimeoutMs   int    `json:"call_timeout_ms,omitempty"`
 	Tables      []int  `json:"dealer_call_tables,omitempty"` // calls, invocations, invocationByCall
 }
 
@@ -104,12 +112,29 @@ func genYieldResume(o *genOpts) []*History {
 		}
 	}
 	var out []*History
+	add := func(q int, kind string, t int64, tmo int) {
+		out = append(out, &History{ID: fmt.Sprintf("C07-yr-%03d", len(out)), Prop: "C07", Seed: o.seed, Shape: yrShape,
+			Realms: []string{"realm1"}, Sessions: []SessionSpec{}, Ops: []Op{},
+			YieldResume: &YieldResumeSpec{Q: q, Kind: kind, ResumeUs: t, TimeoutMs: tmo}})
+	}
 	for _, kind := range yrKinds {
 		for _, q := range []int{1, 2} {
 			for _, t := range ts {
-				out = append(out, &History{ID: fmt.Sprintf("C07-yr-%03d", len(out)), Prop: "C07", Seed: o.seed, Shape: yrShape,
-					Realms: []string{"realm1"}, Sessions: []SessionSpec{}, Ops: []Op{},
-					YieldResume: &YieldResumeSpec{Q: q, Kind: kind, ResumeUs: t}})
+				add(q, kind, t, 0)
+			}
+		}
+	}
+	// the call's own timeout expires while the final RESULT is being retried
+	tmos := []int{200}
+	if o.thorough {
+		tmos = []int{20, 200, 5000, 40000}
+	}
+	for _, kind := range yrKinds[:2] {
+		for _, q := range []int{1, 2} {
+			for _, tmo := range tmos {
+				for _, t := range []int64{3000, 1_000_000, 30_000_000, 70_000_000} {
+					add(q, kind, t, tmo)
+				}
 			}
 		}
 	}
@@ -144,7 +169,7 @@ func us(d time.Duration) int64 { return int64(d / time.Microsecond) }
 
 func (r *runner) rootYieldResume() {
 	sp := r.h.YieldResume
-	row := &yrRow{Q: sp.Q, Kind: sp.Kind, ResumeUs: sp.ResumeUs, ObservedUs: -1, Observed: "not-run", ReleasedUs: -1}
+	row := &yrRow{Q: sp.Q, Kind: sp.Kind, ResumeUs: sp.ResumeUs, ObservedUs: -1, Observed: "not-run", ReleasedUs: -1, TimeoutMs: sp.TimeoutMs}
 	row.PredictedUs, row.Predicted = retryPredict(yrDelayUs, yrDeadlineUs, sp.ResumeUs)
 	r.yr = row
 	r.opsByKind[yrShape]++
@@ -223,6 +248,13 @@ func (r *runner) yieldResumeBody(sp *YieldResumeSpec, row *yrRow) {
 	opts := wamp.Dict{}
 	if sp.Kind != "final" {
 		opts["receive_progress"] = true
+	}
+	if sp.TimeoutMs > 0 {
+		if sp.Kind == "stalled-progressive-final" {
+			setup("call_timeout_ms is for the kinds final and progressive-final (a call that was not answered finally may time out)")
+			return
+		}
+		opts["timeout"] = sp.TimeoutMs
 	}
 	caller.push(&outItem{msg: &wamp.Call{Request: callReq, Options: opts, Procedure: "yr.proc", Arguments: wamp.List{"yr"}}, desc: "CALL yr.proc"})
 	synctest.Wait()
@@ -372,8 +404,8 @@ func (r *runner) yieldResumeBody(sp *YieldResumeSpec, row *yrRow) {
 		canDeliver = canDeliver || a.what == "delivered"
 		canCancel = canCancel || a.what == "cancelled"
 	}
-	r.orc("yield-retry: YIELD taken at %d ms; caller (q=%d) resumed %d us later; model: %v; observed for CALL %d: final RESULTs %v, progressive RESULTs %v, ERRORs %v; callee's next request taken %d us after the YIELD",
-		ms(T0), sp.Q, sp.ResumeUs, allowed, callReq, finals, progs, errs, row.ReleasedUs)
+	r.orc("yield-retry: call timeout %d ms (0: none); YIELD taken at %d ms; caller (q=%d) resumed %d us later; model: %v; observed for CALL %d: final RESULTs %v, progressive RESULTs %v, ERRORs %v; callee's next request taken %d us after the YIELD",
+		sp.TimeoutMs, ms(T0), sp.Q, sp.ResumeUs, allowed, callReq, finals, progs, errs, row.ReleasedUs)
 
 	stalledProg := sp.Kind == "stalled-progressive-final"
 	wantProgs := 0
@@ -435,6 +467,22 @@ func (r *runner) yieldResumeBody(sp *YieldResumeSpec, row *yrRow) {
 						row.ObservedUs = a.us
 					}
 				}
+			}
+		}
+	}
+	// a callee that has answered is not interrupted (the call's timeout timer
+	// was stopped by its final YIELD); at the deadline syncCancel may send one
+	var intr []int64
+	for _, m := range callee.msgsFrom(calleeMark) {
+		if m.Type == "INTERRUPT" {
+			intr = append(intr, rel(m.T))
+		}
+	}
+	if len(intr) > 0 {
+		r.orc("yield-retry: the callee read INTERRUPT at %v us after its final YIELD (call timeout %d ms)", intr, sp.TimeoutMs)
+		for _, u := range intr {
+			if !okPred(u, "cancelled") {
+				bad("interrupt-after-answer", "the callee had answered finally (YIELD taken at 0 us) and got INTERRUPT at %d us; call timeout %d ms; model: %v", u, sp.TimeoutMs, allowed)
 			}
 		}
 	}
